@@ -263,8 +263,10 @@ class Dispatcher:
         self._job_next_operation_index = [0] * self.instance.num_jobs
         self._job_next_available_time = [0] * self.instance.num_jobs
         self._cache = {}
-        for subscriber in self.subscribers:
-            subscriber.reset()
+        # See the note in `_update_tracking_attributes` about the copy.
+        for subscriber in list(self.subscribers):
+            if subscriber in self.subscribers:
+                subscriber.reset()
 
     def dispatch(
         self, operation: Operation, machine_id: int | None = None
@@ -357,9 +359,14 @@ class Dispatcher:
         self._job_next_available_time[job_id] = end_time
         self._cache = {}
 
-        # Notify subscribers
-        for subscriber in self.subscribers:
-            subscriber.update(scheduled_operation)
+        # Notify subscribers. The loop runs over a copy because an observer
+        # may unsubscribe (itself or another observer) while it is being
+        # notified; removing from the list being iterated would make the loop
+        # skip the next subscriber. Observers that have been unsubscribed in
+        # the meantime are not notified.
+        for subscriber in list(self.subscribers):
+            if subscriber in self.subscribers:
+                subscriber.update(scheduled_operation)
 
     def create_or_get_observer(
         self,
